@@ -34,7 +34,9 @@ const c04Reset = `unset -v u l v k q d h b c arr m st 2>/dev/null; unset -f f ca
 // c04Bash evaluates every text with `eval` in the main shell of one bash
 // process (stderr discarded, stdin empty), c04Reset in between. A text that
 // terminates the shell is re-run alone inside a subshell and the batch
-// continues after it. The texts must not print byte 0x01.
+// continues after it. The separator is a top-level command of its own: an
+// expansion error makes bash discard the rest of the current top-level
+// command. The texts must not print byte 0x01.
 func c04Bash(texts []string, dir string) (map[string]c04Res, error) {
 	res := map[string]c04Res{}
 	var todo []string
@@ -56,10 +58,10 @@ func c04Bash(texts []string, dir string) (map[string]c04Res, error) {
 		n := len(todo)
 		if isolated {
 			n = 1
-			fmt.Fprintf(&sb, "( eval %s ) 2>/dev/null </dev/null; printf '\\001%%d\\001\\n' $?\n", oracle.ShQuote(todo[0]))
+			fmt.Fprintf(&sb, "( eval %s ) 2>/dev/null </dev/null\nprintf '\\001%%d\\001\\n' $?\n", oracle.ShQuote(todo[0]))
 		} else {
 			for _, t := range todo {
-				fmt.Fprintf(&sb, "%s\neval %s 2>/dev/null </dev/null; printf '\\001%%d\\001\\n' $?\n", c04Reset, oracle.ShQuote(t))
+				fmt.Fprintf(&sb, "%s\neval %s 2>/dev/null </dev/null\nprintf '\\001%%d\\001\\n' $?\n", c04Reset, oracle.ShQuote(t))
 			}
 		}
 		out, _, err := oracle.ShellFile("bash", sb.String(), dir)
